@@ -17,6 +17,10 @@ func main() {
 		usage()
 	}
 	id := os.Args[1]
+	if id == "__worker" {
+		core.WorkerMain()
+		return
+	}
 	fs := flag.NewFlagSet("vcheck", flag.ExitOnError)
 	tier := fs.String("tier", "", "quick|thorough")
 	replay := fs.String("replay", "", "replay file")
